@@ -30,6 +30,12 @@ type pathEnd struct {
 	msg  string
 }
 
+// goPanic models a Go panic that unwinds towards a deferred recover().
+type goPanic struct {
+	val  Value
+	kind string
+}
+
 type decision struct {
 	isChoice bool
 	val      bool
@@ -80,6 +86,7 @@ type Stats struct {
 	Unwinds       map[string]int
 	ReachSat      int
 	CacheHits     int
+	Merges        int
 	FuncsExecuted map[string]bool
 }
 
@@ -96,6 +103,9 @@ type frame struct {
 	visits  map[*ssa.BasicBlock]int
 	result  Value
 	curInst ssa.Instruction
+	// phi values computed by a merged diamond for the join block
+	phiOverride map[*ssa.Phi]Value
+	phiBlock    *ssa.BasicBlock
 }
 
 type deferred struct {
@@ -129,6 +139,12 @@ type Exec struct {
 	pathSites map[string]bool
 	inputMeta map[string]InputMeta
 	pcKey     uint64
+	panicking *goPanic
+	spec      int
+	guard     *Term
+	journal   map[*Loc]Value
+	minfo     map[*ssa.BasicBlock]*mergeInfo
+	NoMerge   bool
 	qcache    map[[2]uint64]Result
 	initTarget *ssa.Function
 
@@ -235,6 +251,7 @@ func (ex *Exec) runPath(fn *ssa.Function) {
 	ex.extState = map[string]Value{}
 	ex.pathSites = map[string]bool{}
 	ex.inputMeta = map[string]InputMeta{}
+	ex.panicking = nil
 	ex.initTarget = nil
 	ex.sol.Reset()
 	ex.Stats.Paths++
@@ -331,6 +348,9 @@ func (ex *Exec) decide(c *Term) bool {
 	if c.IsFalse() {
 		return false
 	}
+	if ex.spec > 0 {
+		panic(specAbort{})
+	}
 	d := ex.depth
 	ex.depth++
 	if d < len(ex.trail) {
@@ -376,6 +396,9 @@ func (ex *Exec) decide(c *Term) bool {
 func (ex *Exec) choose(t *Term, why string) uint64 {
 	if t.Op == OConst {
 		return t.Val
+	}
+	if ex.spec > 0 {
+		panic(specAbort{})
 	}
 	d := ex.depth
 	ex.depth++
@@ -525,6 +548,20 @@ func (ex *Exec) require(safe *Term, kind string) {
 	if safe.IsTrue() {
 		ex.Stats.ObSimplifier++
 		return
+	}
+	if ex.guard != nil {
+		safe = ex.st.Implies(ex.guard, safe)
+		if safe.IsTrue() {
+			ex.Stats.ObSimplifier++
+			return
+		}
+	}
+	if ex.recoverPending() {
+		// the panic would be caught by a deferred recover(): both outcomes are ordinary control flow
+		if ex.decide(safe) {
+			return
+		}
+		panic(goPanic{val: Iface{T: types.Typ[types.String], V: ex.mkStr("runtime error: " + kind)}, kind: kind})
 	}
 	site, _, _ := ex.siteOf()
 	key := "panic|" + kind + "|" + site
@@ -680,15 +717,51 @@ func (ex *Exec) callClosure(fn *ssa.Function, args []Value, bind []Value) Value 
 		fr.regs[fi.index[p]] = bind[i]
 	}
 	ex.stack = append(ex.stack, fr)
-	ex.runFrame(fr)
-	ex.stack = ex.stack[:len(ex.stack)-1]
+	depth := len(ex.stack)
+	ex.runFrameGuarded(fr, depth)
+	ex.stack = ex.stack[:depth-1]
 	ex.recDepth[fn]--
 	return fr.result
 }
 
-func (ex *Exec) runFrame(fr *frame) {
+// runFrameGuarded runs a frame; a modelled Go panic (goPanic) unwinds through the frame's deferred
+// calls and stops at a frame whose deferred function recovered it.
+func (ex *Exec) runFrameGuarded(fr *frame, depth int) {
+	defer func() {
+		r := recover()
+		if r == nil {
+			return
+		}
+		gp, ok := r.(goPanic)
+		if !ok {
+			panic(r)
+		}
+		ex.stack = ex.stack[:depth]
+		ex.panicking = &gp
+		for len(fr.defers) > 0 {
+			d := fr.defers[len(fr.defers)-1]
+			fr.defers = fr.defers[:len(fr.defers)-1]
+			ex.callValue(d.call, d.fn, d.args)
+		}
+		if ex.panicking != nil {
+			ex.stack = ex.stack[:depth-1]
+			ex.recDepth[fr.fn]--
+			panic(gp)
+		}
+		// recovered: continue in the function's recover block (returns the named results)
+		if fr.fn.Recover != nil {
+			ex.runFrameFrom(fr, fr.fn.Recover)
+		} else {
+			fr.result = ex.zeroResult(fr.fn)
+		}
+	}()
+	ex.runFrame(fr)
+}
+
+func (ex *Exec) runFrame(fr *frame) { ex.runFrameFrom(fr, fr.fn.Blocks[0]) }
+
+func (ex *Exec) runFrameFrom(fr *frame, b *ssa.BasicBlock) {
 	var prev *ssa.BasicBlock
-	b := fr.fn.Blocks[0]
 	for {
 		var next *ssa.BasicBlock
 		for _, in := range b.Instrs {
@@ -699,6 +772,12 @@ func (ex *Exec) runFrame(fr *frame) {
 			fr.curInst = in
 			switch i := in.(type) {
 			case *ssa.Phi:
+				if fr.phiOverride != nil && fr.phiBlock == b {
+					if v, ok := fr.phiOverride[i]; ok {
+						fr.regs[fr.info.index[i]] = v
+						break
+					}
+				}
 				for k, p := range b.Preds {
 					if p == prev {
 						fr.regs[fr.info.index[i]] = ex.get(fr, i.Edges[k])
@@ -715,6 +794,12 @@ func (ex *Exec) runFrame(fr *frame) {
 					if fr.visits[b] > ex.opt.LoopBudget {
 						ex.record("unwind", "loop-budget", fmt.Sprintf("block %d of %s decided %d times", b.Index, fr.fn, fr.visits[b]), ex.model(nil))
 						panic(pathEnd{endUnwind, "loop-budget in " + fr.fn.String()})
+					}
+				}
+				if !c.IsConst() && !ex.NoMerge {
+					if j, ok := ex.tryMerge(fr, b, c); ok {
+						next = j
+						break
 					}
 				}
 				if ex.decide(c) {
@@ -770,7 +855,7 @@ func (ex *Exec) explicitPanic(v Value) {
 		}
 	}
 	if ex.recoverPending() {
-		ex.unsupported("panic under a deferred recover: " + msg)
+		panic(goPanic{val: v, kind: msg})
 	}
 	ex.require(ex.st.F, msg)
 }
@@ -1199,7 +1284,7 @@ func (ex *Exec) storePtr(p Ptr, v Value) {
 					ex.store(ex.resolvePtr(p), v)
 					return
 				}
-				p.Arr.E[k].V = st.Ite(st.Eq(p.Idx, st.Const(p.Idx.W, uint64(k))), tv, old)
+				ex.setLeaf(p.Arr.E[k], st.Ite(st.Eq(p.Idx, st.Const(p.Idx.W, uint64(k))), tv, old))
 			}
 			return
 		}
@@ -2052,6 +2137,14 @@ func (ex *Exec) builtin(b *ssa.Builtin, c *ssa.CallCommon, args []Value) Value {
 	case "panic":
 		ex.explicitPanic(args[0])
 	case "recover":
+		if ex.panicking != nil {
+			v := ex.panicking.val
+			ex.panicking = nil
+			if iv, ok := v.(Iface); ok && iv.T != nil {
+				return iv
+			}
+			return Iface{T: types.Typ[types.String], V: ex.mkStr("panic")}
+		}
 		return Iface{}
 	case "print", "println":
 		return nil
@@ -2200,4 +2293,223 @@ func SortedKeys(m map[string]int) []string {
 	}
 	sort.Strings(k)
 	return k
+}
+
+
+// ---- diamond merging: if/else (or if/then) arms made of simple instructions become ite terms ----
+
+type specAbort struct{}
+
+type mergeInfo struct {
+	ok         bool
+	armT, armF *ssa.BasicBlock // nil when that side goes straight to the join
+	join       *ssa.BasicBlock
+}
+
+func (ex *Exec) setLeaf(l *Loc, v Value) {
+	if ex.journal != nil {
+		if _, ok := ex.journal[l]; !ok {
+			ex.journal[l] = l.V
+		}
+	}
+	l.V = v
+}
+
+func simpleArm(b *ssa.BasicBlock) (*ssa.BasicBlock, bool) {
+	if len(b.Preds) != 1 || len(b.Instrs) == 0 || len(b.Instrs) > 24 {
+		return nil, false
+	}
+	j, ok := b.Instrs[len(b.Instrs)-1].(*ssa.Jump)
+	if !ok {
+		return nil, false
+	}
+	_ = j
+	for _, in := range b.Instrs[:len(b.Instrs)-1] {
+		switch x := in.(type) {
+		case *ssa.BinOp, *ssa.Convert, *ssa.ChangeType, *ssa.IndexAddr, *ssa.FieldAddr, *ssa.Field,
+			*ssa.Store, *ssa.Extract, *ssa.DebugRef, *ssa.Index:
+		case *ssa.UnOp:
+			if x.Op == token.ARROW {
+				return nil, false
+			}
+		default:
+			return nil, false
+		}
+	}
+	return b.Succs[0], true
+}
+
+func (ex *Exec) mergeInfoFor(b *ssa.BasicBlock) *mergeInfo {
+	if ex.minfo == nil {
+		ex.minfo = map[*ssa.BasicBlock]*mergeInfo{}
+	}
+	if mi, ok := ex.minfo[b]; ok {
+		return mi
+	}
+	mi := &mergeInfo{}
+	ex.minfo[b] = mi
+	t, f := b.Succs[0], b.Succs[1]
+	jt, okT := simpleArm(t)
+	jf, okF := simpleArm(f)
+	switch {
+	case okT && okF && jt == jf && jt != b:
+		mi.ok, mi.armT, mi.armF, mi.join = true, t, f, jt
+	case okT && jt == f && f != b:
+		mi.ok, mi.armT, mi.join = true, t, f
+	case okF && jf == t && t != b:
+		mi.ok, mi.armF, mi.join = true, f, t
+	}
+	if mi.ok {
+		// the join's phis must only depend on these predecessors in a way we can resolve
+		for _, p := range mi.join.Preds {
+			if p != b && p != mi.armT && p != mi.armF {
+				// other predecessors are fine: phi edges are looked up by block
+				continue
+			}
+		}
+	}
+	return mi
+}
+
+// runArm executes one arm speculatively under guard g and returns the locations it wrote with their new values.
+func (ex *Exec) runArm(fr *frame, arm *ssa.BasicBlock, g *Term) (writes map[*Loc]Value, ok bool) {
+	ex.journal = map[*Loc]Value{}
+	ex.spec++
+	savedGuard := ex.guard
+	ex.guard = g
+	defer func() {
+		old := ex.journal
+		ex.journal = nil
+		ex.spec--
+		ex.guard = savedGuard
+		// collect new values and undo
+		writes = map[*Loc]Value{}
+		for l, ov := range old {
+			writes[l] = l.V
+			l.V = ov
+		}
+		if r := recover(); r != nil {
+			if _, isAbort := r.(specAbort); isAbort {
+				ok = false
+				return
+			}
+			panic(r)
+		}
+	}()
+	for _, in := range arm.Instrs[:len(arm.Instrs)-1] {
+		ex.steps++
+		fr.curInst = in
+		ex.step(fr, in)
+	}
+	return nil, true
+}
+
+func (ex *Exec) tryMerge(fr *frame, b *ssa.BasicBlock, c *Term) (*ssa.BasicBlock, bool) {
+	if ex.spec > 0 || ex.guard != nil {
+		return nil, false
+	}
+	mi := ex.mergeInfoFor(b)
+	if !mi.ok {
+		return nil, false
+	}
+	st := ex.st
+	var wT, wF map[*Loc]Value
+	ok := true
+	if mi.armT != nil {
+		wT, ok = ex.runArm(fr, mi.armT, c)
+		if !ok {
+			return nil, false
+		}
+	}
+	if mi.armF != nil {
+		wF, ok = ex.runArm(fr, mi.armF, st.Not(c))
+		if !ok {
+			return nil, false
+		}
+	}
+	// merge memory
+	merged := map[*Loc]Value{}
+	mergeVal := func(a, bv Value) (Value, bool) {
+		ta, okA := a.(*Term)
+		tb, okB := bv.(*Term)
+		if okA && okB && ta.W == tb.W {
+			return st.Ite(c, ta, tb), true
+		}
+		if okA != okB {
+			return nil, false
+		}
+		// non-term values: only identical values can be merged
+		switch x := a.(type) {
+		case Ptr:
+			if y, ok := bv.(Ptr); ok && x == y {
+				return a, true
+			}
+		case Slice:
+			if y, ok := bv.(Slice); ok && x == y {
+				return a, true
+			}
+		case nil:
+			if bv == nil {
+				return nil, true
+			}
+		}
+		return nil, false
+	}
+	for l, v := range wT {
+		other := l.V
+		if w, ok := wF[l]; ok {
+			other = w
+		}
+		m, ok := mergeVal(v, other)
+		if !ok {
+			return nil, false
+		}
+		merged[l] = m
+	}
+	for l, v := range wF {
+		if _, done := merged[l]; done {
+			continue
+		}
+		m, ok := mergeVal(l.V, v)
+		if !ok {
+			return nil, false
+		}
+		merged[l] = m
+	}
+	// phis of the join
+	phis := map[*ssa.Phi]Value{}
+	predT, predF := b, b
+	if mi.armT != nil {
+		predT = mi.armT
+	}
+	if mi.armF != nil {
+		predF = mi.armF
+	}
+	for _, in := range mi.join.Instrs {
+		phi, isPhi := in.(*ssa.Phi)
+		if !isPhi {
+			break
+		}
+		var vT, vF Value
+		for k, p := range mi.join.Preds {
+			if p == predT {
+				vT = ex.get(fr, phi.Edges[k])
+			}
+			if p == predF {
+				vF = ex.get(fr, phi.Edges[k])
+			}
+		}
+		m, ok := mergeVal(vT, vF)
+		if !ok {
+			return nil, false
+		}
+		phis[phi] = m
+	}
+	for l, v := range merged {
+		ex.setLeaf(l, v)
+	}
+	fr.phiOverride = phis
+	fr.phiBlock = mi.join
+	ex.Stats.Merges++
+	return mi.join, true
 }
